@@ -89,8 +89,12 @@ func ForceSelfClosingTags(b []byte) []byte {
 		openingTagContents := sm[2]
 		closingTag := sm[3]
 
-		if !bytes.Equal(openingTag, closingTag) {
-			// we found a chunk that contains an already "self closed" tag, ignore this
+		if !bytes.Equal(openingTag, closingTag) ||
+			bytes.HasSuffix(openingTagContents, []byte("/")) {
+			// we found a chunk that contains an already "self closed" tag, ignore this -- this
+			// includes an already self closed tag *with attributes* that is directly followed by
+			// the end tag of an enclosing element of the same name (`<a><a k="v"/></a>`), in which
+			// case the "opening tag contents" end with the slash of the self closed tag
 			continue
 		}
 
